@@ -541,6 +541,16 @@ def check_main(prop, tier, replay=None, search=0):
         if res is None:
             res = {"spec": v["spec"], "trace": v["trace"], "stalls": v["stalls"], "sha": v["sha"],
                    "msg": v["msg"], "info": {"minimised": False}}
+        final_sig = res["info"].get("sig", sig)
+        fd = match_finding(findings, prop, final_sig)
+        if fd is not None:
+            # the minimised form of this violation is an open known finding (its unminimised
+            # signature was merely less specific): count it there instead of raising an alarm
+            nfam = sum(sig_counts.get(x, 1) for x in members)
+            known_hits[fd["id"]] = known_hits.get(fd["id"], 0) + nfam
+            print("note: %d run(s) with signature family %r reduce, after minimisation, to known finding %s (%s)"
+                  % (nfam, fam, fd["id"], final_sig[:160]))
+            continue
         path = os.path.join(REPLAYS, "%s-%s-%d.json" % (prop, sig8, v["idx"]))
         with open(path, "w") as f:
             json.dump({"property": prop, "spec": res["spec"], "trace": res["trace"], "stalls": res["stalls"],
